@@ -148,6 +148,11 @@ func (s vxState) ContractClassHash(addr *felt.Felt) (felt.Felt, error) {
 	return s.b.nonce, nil
 }
 
+// no class is declared on the model chain: every class lookup misses
+func (s vxState) Class(*felt.Felt) (*core.DeclaredClassDefinition, error) {
+	return nil, db.ErrKeyNotFound
+}
+
 func vxNoClose() error { return nil }
 
 func (c *vxChain) HeadState() (core.StateReader, blockchain.StateCloser, error) {
